@@ -8,6 +8,8 @@ Three exhaustive sub-explorations (field 'sub' of a case):
         lattice (step 1/64, radius 1/8) around x.get(), that the closed forms call feasible for the USER's model
         has a better objective than the reported optimum; a definite infeasibility report on a model whose origin
         is strictly feasible is a violation too; all-integer specs are compared with the brute-force optimum.
+        The C06 re-solve histories (solve -> st(redundant) -> solve ...; quick: the 3-compile history) get the same
+        lattice reference after EVERY solve.
  milp : linear models with B/I/C variables (mixed vtype strings, several variables, user bounds on integers and
         binaries as Bounds): brute force over all integer points (continuous part by scipy linprog).
 """
@@ -262,6 +264,18 @@ def gen_milp(tier, seed):
                                 yield {'sub': 'milp', 'fe': fe, 'solver': solver, 'spec': spec}
 
 
+def gen_lat_hist(tier, seed):
+    """Re-solve histories of the C06 history family (quick: the 3-compile history only)."""
+    th = tier == 'thorough'
+    for tag, ktag, spec in S.c06_hist_specs(tier, seed):
+        solvers = S.solvers_for(spec, th)
+        for solver in solvers[:1]:
+            if solver == 'ort':
+                continue
+            for hist in (S.HISTORIES if th else S.HISTORIES[-1:]):
+                yield {'sub': 'lat', 'tag': tag, 'k': ktag, 'solver': solver, 'spec': spec, 'hist': hist}
+
+
 def gen_lat(tier, seed):
     th = tier == 'thorough'
     for tag, ktag, spec in S.c06_specs(tier, seed):
@@ -274,7 +288,7 @@ def gen_lat(tier, seed):
 def gen_cases(tier, seed):
     import os
     only = os.environ.get('RSMC_C07_SUB')          # development aid: run one sub-exploration only
-    for name, g in (('pin', gen_pin), ('milp', gen_milp), ('lat', gen_lat)):
+    for name, g in (('pin', gen_pin), ('milp', gen_milp), ('lat', gen_lat), ('lathist', gen_lat_hist)):
         if only and only != name:
             continue
         for c in g(tier, seed):
@@ -294,6 +308,7 @@ def bounds(tier):
                     'multipliers': [1, 2.5, 0.5] if th else [1, 2.5], 'front_ends': ['ro', 'dro(subset)']},
             'lat': {'n': [2, 3] if th else [2], 'step': 0.25, 'fine_step': 1 / 64, 'fine_radius': 0.125,
                     'specs': 'the C06 grammar' + ('' if th else ' (dro front end: multipliers +-1 only)')},
+            'lat_histories': {'sequences': S.HISTORIES if th else S.HISTORIES[-1:], 'specs': 'the C06 history family'},
             'milp': {'int_box': '4 values per integer variable, <= 3 integers (thorough: 3 integers x 2 binaries)',
                      'binary_bounds': ['none', '[0,1]', 'ub=0', 'lb=1', '[-1,3]'], 'layouts': 14 if th else 10,
                      'interfaces': ['def', 'ort', 'grb', 'eco(<=3 integer variables)']}}
@@ -446,14 +461,63 @@ def _fine(v, n):
 
 def run_lat(case):
     spec, solver, tag = case['spec'], case['solver'], case['tag']
-    n = spec['n']
     sig = 'lat|%s|%s' % (spec['fe'], tag)
     try:
         m, x, nops = S.build_model(_R, spec)
     except Exception as ex:  # noqa
         return {'status': 'unsupported', 'outcome': 'lat:raise@build:%s' % type(ex).__name__, 'ops': 4, 'detail': str(ex)[:160]}
-    st, info = S.solve(_R, m, solver)
-    nops += 1
+    if not case.get('hist'):
+        st, info = S.solve(_R, m, solver)
+        return _lat_judge(case, m, x, st, info, nops + 1, sig)
+    # re-solve history: the lattice reference is applied to every solve of the (redundantly extended) model
+    sig = '%s|hist=%s' % (sig, case['hist'])
+    nsolve = nst = 0
+    last = None
+    later_fail = None
+    total = 0
+    for step in case['hist'].split(','):
+        try:
+            if step == 'st':
+                if nst % 2 == 0:
+                    m.st(x[0] <= 4.0)
+                else:
+                    m.st(np.array(([1.0, -0.5, 0.25] * 2)[:spec['n']]) @ x <= 8.0)
+                nst += 1
+                nops += 1
+                continue
+            if step == 'domath':
+                m.do_math()
+                nops += 1
+                continue
+        except Exception as ex:  # noqa
+            return {'status': 'unsupported', 'outcome': 'lat:raise@%s:%s' % (step, type(ex).__name__), 'ops': nops,
+                    'detail': str(ex)[:160]}
+        nsolve += 1
+        st, info = S.solve(_R, m, solver)
+        nops += 1
+        res = _lat_judge(case, m, x, st, info, nops, '%s|solve#%d' % (sig, nsolve))
+        if res['status'] == 'violation':
+            return res
+        if res['status'] != 'pass':
+            if last is None:
+                return res
+            later_fail = res
+            continue
+        total += res.get('states', 0)
+        last = res
+    if later_fail is not None:
+        return {'status': 'vacuous', 'outcome': 'lat:hist:later-' + str(later_fail.get('outcome')), 'ops': nops,
+                'detail': later_fail.get('detail')}
+    out = dict(last)
+    out['outcome'] = last['outcome'].replace('lat:', 'lat:hist:', 1)
+    out['states'] = total
+    out['ops'] = nops
+    return out
+
+
+def _lat_judge(case, m, x, st, info, nops, sig):
+    spec, solver = case['spec'], case['solver']
+    n = spec['n']
     if st == 'raise':
         return {'status': 'unsupported', 'outcome': 'lat:raise@solve:%s' % info.split(':')[0], 'ops': nops, 'detail': info}
     sense = 1.0 if spec['obj']['dir'] == 'min' else -1.0
